@@ -302,6 +302,26 @@ func checkIn(c Case) (st stats, err error) {
 				} else {
 					goal, want = fmt.Sprintf("get_char(%s, %s)", alias, v), m.char(false)
 				}
+			case "getx":
+				// the character / byte argument is given: whether it matches or not, the input is consumed (ISO 8.12.1)
+				var w []string
+				if c.Binary {
+					w = m.byteOp(false)
+					goal = fmt.Sprintf("(get_byte(%s, 120) -> %s = y ; %s = n)", alias, v, v)
+				} else {
+					w = m.char(false)
+					goal = fmt.Sprintf("(get_char(%s, x) -> %s = y ; %s = n)", alias, v, v)
+				}
+				for _, o := range w {
+					switch o {
+					case "c:x", "b:120":
+						want = append(want, "a:y")
+					case errPast:
+						want = append(want, errPast)
+					default:
+						want = append(want, "a:n")
+					}
+				}
 			case "peek":
 				if c.Binary {
 					goal, want = fmt.Sprintf("peek_byte(%s, %s)", alias, v), m.byteOp(true)
@@ -521,8 +541,8 @@ func genSrc(t *rapid.T) string {
 	return b.String()
 }
 
-var textOps = []string{"get", "peek", "read", "ateos", "pos", "eos", "get", "peek", "read"}
-var binOps = []string{"get", "peek", "ateos", "pos", "eos", "get", "peek"}
+var textOps = []string{"get", "peek", "read", "ateos", "pos", "eos", "get", "peek", "read", "getx"}
+var binOps = []string{"get", "peek", "ateos", "pos", "eos", "get", "peek", "getx"}
 
 func genCase() *rapid.Generator[Case] {
 	return rapid.Custom(func(t *rapid.T) Case {
@@ -579,7 +599,7 @@ func genCase() *rapid.Generator[Case] {
 func TestProp(t *testing.T) {
 	r := h.Start(t, "C19")
 	defer r.Finish(t)
-	r.Rule("rapid-generated cases. Input: a source assembled from segments (a lower-case atom or integer, an end '.', layout / comments, and arbitrary characters incl. multi-byte, with and without trailing layout after the last term, so the model knows where every term ends without a second parser) x a stream kind (a file opened with open/4 as text or binary with each eof_action; host readers given to SetUserInput: strings.Reader, one-byte reader, a reader returning its last data together with EOF, a half reader; text or binary) (one case in twelve: behind about 4096 or 8192 spaces, all but a few of which a get loop consumes first, so that the operations straddle a buffer boundary) x 1-5 queries of 1-4 operations each from {get_char/get_byte, peek_char/peek_byte, read_term, at_end_of_stream, stream_property position, stream_property end_of_stream} - operations are issued both in separate queries and as conjunctions inside one query. Oracle: a cursor model (bytes, cursor, end_of_file delivered): peeks return what the next read returns and move nothing; consecutive reads deliver consecutive characters, bytes or terms; read_term leaves the cursor right after the end '.'; at the end end_of_file / -1 is delivered once and then eof_action applies (a peek that showed end_of_file changes nothing: the next consuming read still delivers it); position = bytes consumed; end_of_stream is 'not' while input remains and 'past' once end_of_file was delivered by a read. A read_term whose text at the cursor is outside the modelled syntax is not issued. Output: put_char, nl, write, write_term, put_byte sequences on a file or a host writer (text and binary): after close / flush_output the sink holds exactly the concatenation in program order. Non-trivial: a sequence mixing >= 2 operation kinds with a peek followed by another kind, or reaching the end of the source. Distinct by case.",
+	r.Rule("rapid-generated cases. Input: a source assembled from segments (a lower-case atom or integer, an end '.', layout / comments, and arbitrary characters incl. multi-byte, with and without trailing layout after the last term, so the model knows where every term ends without a second parser) x a stream kind (a file opened with open/4 as text or binary with each eof_action; host readers given to SetUserInput: strings.Reader, one-byte reader, a reader returning its last data together with EOF, a half reader; text or binary) (one case in twelve: behind about 4096 or 8192 spaces, all but a few of which a get loop consumes first, so that the operations straddle a buffer boundary) x 1-5 queries of 1-4 operations each from {get_char/get_byte (also with the character / byte given: it is consumed whether it matches or not), peek_char/peek_byte, read_term, at_end_of_stream, stream_property position, stream_property end_of_stream} - operations are issued both in separate queries and as conjunctions inside one query. Oracle: a cursor model (bytes, cursor, end_of_file delivered): peeks return what the next read returns and move nothing; consecutive reads deliver consecutive characters, bytes or terms; read_term leaves the cursor right after the end '.'; at the end end_of_file / -1 is delivered once and then eof_action applies (a peek that showed end_of_file changes nothing: the next consuming read still delivers it); position = bytes consumed; end_of_stream is 'not' while input remains and 'past' once end_of_file was delivered by a read. A read_term whose text at the cursor is outside the modelled syntax is not issued. Output: put_char, nl, write, write_term, put_byte sequences on a file or a host writer (text and binary): after close / flush_output the sink holds exactly the concatenation in program order. Non-trivial: a sequence mixing >= 2 operation kinds with a peek followed by another kind, or reaching the end of the source. Distinct by case.",
 		"the cursor model in props/c19", "behaviour after a syntax error in read_term and the at/not distinction when the source is exhausted but has not said so are not asserted")
 	r.Regress(t)
 	if r.Failed() {
